@@ -170,8 +170,14 @@ let () =
        let m = (match lookup_token ts (z_of_string l) (z_of_string c) with Ok r -> show (match r with None -> None | Some ((i, t), off) -> Some (int_of_z (Z.of_nat i), t, off)) | _ -> "panic") in
        let sp = (match spec_lookup ts (z_of_string l) (z_of_string c) with None -> "none" | Some (i, t) -> Printf.sprintf "%d %s" (int_of_z (Z.of_nat i)) (string_of_tok t)) in
        let impl_tok = (if impl = "none" || impl = "panic" then impl else (match String.split_on_char ' ' impl with [i; t; _] -> i ^ " " ^ t | _ -> impl)) in
-       let corr = (m = impl) and prop = Some (sp = impl_tok) in
-       count corr prop; verdict id corr prop (Printf.sprintf "model=%s\tspec=%s" m sp)
+       (* C07: the reported original column: advanced by (col - token column) only for a range token on its own line (saturating), otherwise the token's own *)
+       let col_ok = (match String.split_on_char ' ' impl with
+           | [_; t; sc] -> let t = tok_of_string t in
+             let want = (if t.t_range && Z.eqb t.t_dl (z_of_string l) then (let x = Z.add t.t_sc (Z.add (z_of_string c) (Z.opp t.t_dc)) in if Z.ltb none_z x then none_z else x) else t.t_sc) in
+             string_of_z want = sc
+           | _ -> true) in
+       let corr = (m = impl) and prop = Some (sp = impl_tok && col_ok) in
+       count corr prop; verdict id corr prop (Printf.sprintf "model=%s\tspec=%s%s" m sp (if col_ok then "" else "\toriginal-column-differs"))
      | [id; "rel"; base; target; impl] ->
        let m = hex_of_bytes (make_relative_path (bytes_of_hex base) (bytes_of_hex target)) in
        let dir = (match List.rev (components (bytes_of_hex base)) with [] -> [] | _ :: r -> List.rev r) in
@@ -209,7 +215,18 @@ let () =
        let m = String.concat "," m and sp = String.concat "," sp in
        let corr = (m = impl) and prop = Some (sp = impl) in
        count corr prop; verdict id corr prop (Printf.sprintf "model=%s\tspec=%s" m sp)
-     | [id; "adjust"; orig; adj; impl] ->
+     | [id; "dispatch"; sections; fb; with_mappings; doc; impl] ->
+       (* C02: documents with `sections` decode as index maps, documents with `x_facebook_sources` as Hermes maps, everything else as
+          regular maps -- whatever else the document holds. A JSON null is an absent key. (fb: length class of the value text) *)
+       let has_sections = (sections <> "-" && sections <> "null") and has_fb = (fb <> "1" && fb <> "4") in
+       let want = (if has_sections then (match sections with "[]" -> "index0" | "[S]" -> "index1:regular" | "[S,S2]" -> "index2:regular:regular" | "[N]" -> "index1:index" | _ -> "?")
+                   else if has_fb then (if with_mappings = "1" then "hermes" else "hermes-or-err")
+                   else (if with_mappings = "1" then "regular" else "regular-or-err")) in
+       let ok = (impl = want) || (want = "hermes-or-err" && (impl = "hermes" || String.length impl > 3 && String.sub impl 0 3 = "err"))
+                || (want = "regular-or-err" && (impl = "regular" || String.length impl > 3 && String.sub impl 0 3 = "err")) in
+       let prop = Some (ok && impl <> "panic") in
+       let _ = doc in count true prop; verdict id true prop ("want=" ^ want)
+     | [id; "adjust"; orig; adj; impl; after] ->
        let o = toks_of_string orig and a = toks_of_string adj in
        let m = (match adjust_mappings o a with Ok l -> "ok " ^ string_of_toks l | Err e -> "err " ^ err_name e | Panic _ -> "panic") in
        let known = has_empty_stretch dst_key o || has_empty_stretch src_key a in
@@ -222,8 +239,14 @@ let () =
            let l = toks_of_string (String.sub impl 3 (String.length impl - 3)) in
            let rec srt = function a :: (b :: _ as r) -> (Z.ltb a.t_dl b.t_dl || (Z.eqb a.t_dl b.t_dl && not (Z.ltb b.t_dc a.t_dc))) && srt r | _ -> true in srt l
          else false) in
-       let corr = (m_c = impl_c) and prop = (if not ordered then Some false else if sp = impl_c then Some true else if known then None else Some false) in
-       count corr prop; verdict id corr prop (Printf.sprintf "%s%smodel=%s" (if not ordered then "not-ordered\t" else "") (if ordered && known && sp <> impl_c then "known=c10_has_empty_stretch\t" else "") m)
+       (* C04 over histories: lookups on the adjusted map answer like the specification applied to the map's own (ordered) tokens *)
+       let lookups_ok = (if ordered && after <> "-" then
+           let l = toks_of_string (String.sub impl 3 (String.length impl - 3)) in
+           List.for_all2 (fun (ql, qc) got -> (match spec_lookup l (z_small ql) (z_small qc) with None -> got = "none" | Some (_, t) -> got = string_of_tok t))
+             [(0, 0); (0, 3); (0, 7); (1, 2); (2, 9); (0, 12)] (split_list after)
+         else true) in
+       let corr = (m_c = impl_c) and prop = (if not ordered || not lookups_ok then Some false else if sp = impl_c then Some true else if known then None else Some false) in
+       count corr prop; verdict id corr prop (Printf.sprintf "%s%s%smodel=%s" (if not lookups_ok then "lookup-differs\t" else "") (if not ordered then "not-ordered\t" else "") (if ordered && known && sp <> impl_c then "known=c10_has_empty_stretch\t" else "") m)
      | [id; "rewrite"; m; names; contents; prefixes; impl] ->
        let sm = map_of_string m in
        let o = { ro_names = (names = "1"); ro_contents = (contents = "1"); ro_prefixes = List.map bytes_of_hex (split_list prefixes) } in
@@ -549,7 +572,7 @@ let () =
           sourceMappingURL comment and is discovered from there *)
        let prop = Some (via_url = direct && embedded = direct && via_view = direct && String.length direct >= 2 && String.sub direct 0 2 = "ok") in
        count true prop; verdict id true prop ("preamble=" ^ preamble)
-     | [id; "roundtrip"; kind; before; after; idem; detected; shape; mp; dbg; impl_obs] ->
+     | [id; "roundtrip"; kind; before; after; idem; detected; shape; values; mp; dbg; impl_obs] ->
        (* C01 / C03 / C18: a whole map (regular, index, Hermes) written and read back.
           before/after: id-independent observations computed by the harness (views deduplicated there);
           idem: 2nd and 3rd serialisation byte-identical; detected: is_sourcemap_slice on the written bytes;
@@ -560,7 +583,19 @@ let () =
        let offs_written = find_all (Str.regexp "<\\([0-9]+:[0-9]+\\):") shape and offs_before = find_all (Str.regexp "(\\([0-9]+:[0-9]+\\):") before in
        let versions = find_all (Str.regexp "{v=\\([^ ]*\\) ") shape in
        let shape_ok = not (has ":null" shape) && List.for_all (fun v -> v = "3") versions && versions <> [] && offs_written = offs_before in
-       let prop = Some (before = after && idem = "1" && detected = "1" && shape_ok && before <> "panic") in
+       (* C03: the written keys carry the map's values: no null among sources, each written source joined with the written root is the
+          name the map reports, names / contents / file / ignore list / debug id are the map's *)
+       let values_ok = (values = "" || List.for_all (fun e -> match String.split_on_char '~' e with
+           | [w; a] -> (match String.split_on_char '|' w, String.split_on_char '|' a with
+               | [wroot; wsrc; wnames; wcont; wfile; wign; wdbg], [aroot; asrc; anames; acont; afile; aign; adbg] ->
+                 let items x = if String.length x >= 2 && x.[0] = '[' then split_list (String.sub x 1 (String.length x - 2)) else ["?"] in
+                 let root = (if wroot = "-" then None else Some (bytes_of_hex (unq wroot))) in
+                 let srcs_ok = (try List.for_all2 (fun ws asrc -> ws <> "null" && ws <> "-" && "=" ^ hex_of_bytes (spec_join root (bytes_of_hex (unq ws))) = asrc) (items wsrc) (items asrc) with _ -> false) in
+                 srcs_ok && wnames = anames && wcont = acont && wfile = afile && wign = aign && wdbg = adbg
+                 && (wroot = aroot || (wroot = "-" && aroot = "="))
+               | _ -> false)
+           | _ -> false) (String.split_on_char '#' values)) in
+       let prop = Some (before = after && idem = "1" && detected = "1" && shape_ok && values_ok && before <> "panic") in
        let corr = (if kind = "regular" && mp <> "-" then
            let m0 = map_of_string mp in
            let m = if dbg = "1" then { m0 with sm_debug_id = Some (z_small 7) } else m0 in
@@ -568,7 +603,7 @@ let () =
             | Ok (DRegular m') -> obs_of_map m' = impl_obs
             | _ -> impl_obs = "err")
          else true) in
-       count corr prop; verdict id corr prop (if before <> after then "observation-changed" else if idem <> "1" then "not-idempotent" else if detected <> "1" then "not-detected" else if not shape_ok then "bad-key-shape" else "same")
+       count corr prop; verdict id corr prop (if before <> after then "observation-changed" else if idem <> "1" then "not-idempotent" else if detected <> "1" then "not-detected" else if not shape_ok then "bad-key-shape" else if not values_ok then "written-values-differ" else "same")
      | [id; "keys"; mp; dbg; impl] ->
        (* C03: a key is written exactly when the map has a value for it; version and sources always *)
        let m0 = map_of_string mp in
